@@ -6,7 +6,14 @@ from vf.main import Ctx
 import vf.scen_kernels2 as k2
 run = report.Run('C04', 'quick', 0); tree = build.Tree(); ctx = Ctx(run, tree, 'quick', 0)
 names = sys.argv[1:] or None
-if os.environ.get('SERIAL'):
+if os.environ.get('FN'):
+    inl = k2.conversions(ctx)
+    for e in k2.fn_table():
+        if names and e['name'] not in names: continue
+        r = k2._ftask((ctx, e, inl))
+        print(e['name'], 'paths', r['paths'], 'obl', r['obl'], 'ok', r['ok'], 'unh', r['unh'])
+        for c in r['cands'][:6]: print('   ', c['role'], c['text'][:500], '| unmodelled:', c['unmodelled'])
+elif os.environ.get('SERIAL'):
     inl = k2.conversions(ctx)
     for e in k2.table():
         if names and e['name'] not in names: continue
